@@ -6,7 +6,7 @@ import os
 import numpy as np
 import segyio
 
-from .. import codec, env, inputs, par, readcalls, session, writers, wseam
+from .. import codec, env, inputs, par, readcalls, session, sgzfile, writers, wseam
 from ..backends import CountingFile
 
 FINISH = dict(
@@ -43,12 +43,15 @@ def sources(run):
     return out
 
 
-def calls_for(F):
+def calls_for(F, tf_keys=()):
+    """tf_keys: header words asked one by one through get_tracefield_values (an aggregate over all stored words would raise as
+    soon as one array lies beyond the cut and hide a wrong answer for another)"""
     ni, nx, nz = F['n']
+    tf = [('tracefield1', [int(k)]) for k in tf_keys]
     if F['dim'] == 2:
         return [('get_trace', [0, N, N]), ('get_trace', [nx - 1, N, N]), ('read_subplane', [0, nx, 0, nz]), ('gen_trace_header', [0]),
-                ('gen_trace_header', [nx - 1]), ('meta', [])]
-    return [('read_inline', [0]), ('read_inline', [ni - 1]), ('read_crossline', [nx - 1]), ('read_zslice', [nz - 1]), ('read_zslice', [0]),
+                ('gen_trace_header', [nx - 1]), ('meta', [])] + tf
+    return tf + [('read_inline', [0]), ('read_inline', [ni - 1]), ('read_crossline', [nx - 1]), ('read_zslice', [nz - 1]), ('read_zslice', [0]),
             ('read_volume', []), ('read_subvolume', [0, 2, 0, 2, 0, 5]), ('get_trace', [0, N, N]), ('get_trace', [ni * nx - 1, N, N]),
             ('read_correlated_diagonal', [0, N, N, N, N]), ('gen_trace_header', [0]), ('gen_trace_header', [ni * nx - 1]),
             ('tracefield', []), ('meta', [])]
@@ -80,6 +83,8 @@ def outcome(data, op, a, preload=False):
                 return ('meta', meta_of(r))
             if op == 'tracefield':
                 return ('value', [np.asarray(r.get_tracefield_values(k)).tolist() for k in r.stored_header_keys])
+            if op == 'tracefield1':
+                return ('value', np.asarray(r.get_tracefield_values(a[0])).tolist())
             out = readcalls.invoke(r, op, a)
     except BaseException as e:
         if isinstance(e, (KeyboardInterrupt, SystemExit, MemoryError)):
@@ -155,12 +160,15 @@ def run(run):
         # code -> spec: write offsets are the ones the format derives
         hdr_first = writes[0]['off'] == 0 and writes[0]['len'] == 8192
         run.check(hdr_first, 'C18.header-first', {'route': label}, (writes[0]['off'], writes[0]['len']), (0, 8192))
-        calls = calls_for(fc.F)
+        allk = sgzfile.trace_keys()
+        others = [k for k in allk if k not in fc.stored]
+        tf_keys = list(fc.stored) + (others[:4] + others[-2:] if quick else others)
+        calls = calls_for(fc.F, tf_keys)
         S = {'label': label, 'writes': writes, 'full': full, 'layout': fc.layout, 'calls': calls}
         S['partials'] = cuts_for(S, rng, quick)
         S['complete'] = [outcome(full, op, a) for op, a in calls]
         for ci, (op, a) in enumerate(calls):
-            if S['complete'][ci][0] == 'raise':
+            if S['complete'][ci][0] == 'raise' and op != 'tracefield1':      # a word that is not stored has no array: KeyError
                 run.machinery(f'complete file raises for {op}{a} on {label}: {S["complete"][ci]}')
         S_all.append(S)
         run.traces_validated += 1
